@@ -80,10 +80,10 @@ def write_cfg(path, faults=(), invs=(), props=(), init="Init", nxt="Next", max_e
 # ------------------------------------------------------------------------------------------------
 # TLC: model checking, vacuity guards, histories
 # ------------------------------------------------------------------------------------------------
-def tlc_jobs(scratch):
+def tlc_jobs(scratch, mc_events=MAX_EVENTS):
     """-> list of (label, kind, cfg, expect, workers)"""
-    jobs = [("MC", "mc", write_cfg(os.path.join(scratch, "Sockets_MC.cfg"), invs=MAIN_INVS, props=["Act_Stable"]),
-             None, 8)]
+    jobs = [("MC", "mc", write_cfg(os.path.join(scratch, "Sockets_MC.cfg"), invs=MAIN_INVS, props=["Act_Stable"],
+                                   max_events=mc_events), None, 8)]
     for f, inv in FAULTS:
         jobs.append(("fault_" + f, "fault", write_cfg(os.path.join(scratch, "Sockets_f_%s.cfg" % f), faults=(f,),
                                                        invs=[inv, "Inv_ProjFaithful"]), inv, 2))
@@ -114,11 +114,11 @@ def run_tlc_job(job, scratch):
     return res
 
 
-def simulate_histories(scratch, seed, num):
+def simulate_histories(scratch, seed, num, live_events=MAX_EVENTS):
     """tlc -simulate on Sockets_sim: every behaviour that reaches the bound is printed by the invariant Emit."""
-    cfg = write_cfg(os.path.join(scratch, "Sockets_sim.cfg"), invs=["Emit"])
+    cfg = write_cfg(os.path.join(scratch, "Sockets_sim.cfg"), invs=["Emit"], max_events=live_events)
     r = tlcrun.run_tlc("Sockets.tla", cfg, scratch, workers=1, timeout=300, heap="2g", gc=tlcrun.SMALL_JVM,
-                       extra_args=["-simulate", "num=%d" % num, "-depth", str(MAX_EVENTS + 1), "-seed",
+                       extra_args=["-simulate", "num=%d" % num, "-depth", str(live_events + 1), "-seed",
                                    str(seed * 1000003 + 17)])
     hs = []
     seen = set()
@@ -267,6 +267,7 @@ class LiveRun(object):
         -> (live records, circus view) or (None, why)"""
         end = time.time() + timeout
         last, stable, why = None, 0, "timeout"
+        stopped_since = None
         while time.time() < end:
             if not self.daemon.alive():
                 return None, "the daemon exited (status %s)" % self.daemon.p.returncode
@@ -283,6 +284,13 @@ class LiveRun(object):
                 elif any(view[w][1] != "active" or view[w][0] != count[w] for w in WATCHERS):
                     why = "daemon says %s, live workers %s" % (view, count)
                     stable = 0
+                    # a watcher that gave up (spawn failed max_retry times) does not come back by itself
+                    if any(view[w][1] == "stopped" for w in WATCHERS):
+                        stopped_since = stopped_since or time.time()
+                        if time.time() - stopped_since > T(3):
+                            return None, "a watcher stays stopped: " + why
+                    else:
+                        stopped_since = None
                 else:
                     key = (sorted((r["pid"], r["start_ticks"]) for r in live), sorted(view.items()))
                     stable = stable + 1 if key == last else 1
@@ -574,8 +582,8 @@ def run(prop, tier, seed):
     t = checklib.Timer()
     verdict = checklib.Verdict(prop)
     quick = tier == "quick"
-    n_hist = 10 if quick else 200
-    par = 10 if quick else 16
+    n_hist = 12 if quick else 960
+    par = 12 if quick else 16
     cov = {}
     with tlcrun.Scratch() as scratch:
         try:
@@ -599,10 +607,14 @@ def run(prop, tier, seed):
 def _run(verdict, quick, seed, scratch, n_hist, par):
     rng = random.Random(seed * 2654435761 % (2 ** 31) + 11)
     pool = ThreadPoolExecutor(max_workers=8)
-    jobs = tlc_jobs(scratch)
+    # quick: every history of <= 4 events model-checked, live histories of 4 events;
+    # thorough: <= 5 events model-checked (680 000 states), live histories of 6 events
+    mc_events, live_events = (MAX_EVENTS, MAX_EVENTS) if quick else (MAX_EVENTS + 1, MAX_EVENTS + 2)
+    jobs = tlc_jobs(scratch, mc_events)
     futs = [pool.submit(run_tlc_job, j, scratch) for j in jobs]
-    hs, simst = simulate_histories(scratch, seed, max(n_hist, 12))
-    cov = {"simulation": simst, "histories_offered_by_tlc": len(hs)}
+    hs, simst = simulate_histories(scratch, seed, max(n_hist, 12), live_events)
+    cov = {"simulation": simst, "histories_offered_by_tlc": len(hs), "mc_max_events": mc_events,
+           "live_history_length": live_events}
     if len(hs) < min(n_hist, 8):
         verdict.machinery.append("tlc -simulate printed %d histories: %s" % (len(hs), simst.get("tail")))
     chosen = choose(hs, n_hist, rng)
@@ -614,7 +626,7 @@ def _run(verdict, quick, seed, scratch, n_hist, par):
     # a run the machinery could not complete is repeated once, alone
     reruns_machinery = 0
     for i, r in enumerate(runs):
-        if not r["ok"]:
+        if not r["ok"] and reruns_machinery < MAX_RERUNS:
             reruns_machinery += 1
             first = r["problems"]
             d, h, c = ljobs[i]
@@ -625,7 +637,7 @@ def _run(verdict, quick, seed, scratch, n_hist, par):
     good = [r for r in runs if r["ok"]]
     for r in runs:
         if not r["ok"]:
-            verdict.machinery.append("live run of %s could not be completed (twice): %s" % (
+            verdict.machinery.append("live run of %s could not be completed (repeated alone): %s" % (
                 r["history"]["events"], r["problems"][:2]))
     # ---- TLC on what was observed
     vs, vst = validate([r["trace"] for r in good], scratch, "a")
